@@ -1,6 +1,6 @@
 /-
-  C12 (command-line program), topic E5: what main.go PRINTS for the non-dump modes preserves what the library
-  reports, and the exit code says whether it did.
+  C12 (command-line program), topic E5: what main.go PRINTS — in the dump modes (JSON / `-sql` / `-csv`) and in the
+  other modes — preserves what the library reports, and the exit code says whether it did.
 
   The model is `Model/CliRender.lean` (`cliRun`: action ↦ stdout / stderr / exit code, over the library calls as
   parameters); family `clirender` ties it to the real binary.  The theorems here are about the model:
@@ -10,13 +10,23 @@
       maps lose nothing the properties C16 / C20 talk about;
     * text modes (`-passwords`, `-list-db`, `-f …/1262`): the lines determine the listed records (C14, C12) under
       explicit printability hypotheses — and outside them they do not (witnesses below);
+    * dump modes (`pgread [-d DIR] [-db NAME] [-t SUBSTR] [-list] [-sql] [-csv]`): `C12_cli_dump_output` — stdout is
+      exactly the JSON / SQL / CSV rendering of what `DumpDataDir` returned under the options the flags select;
+      `C12_cli_dump_json_valid` / `C12_cli_dump_json_injective` — the JSON text is valid and determines the dump;
     * `C12_cli_exit`: the exit code is 0 exactly when every library call on the path succeeded and something could
-      be printed.
+      be printed; `C12_cli_streams`: what goes to stdout and what to stderr.
+
+  Where nothing is claimed: `cliRun` returns `.unrendered` (no `Out`) for `-f … -index`, `-f … -toast-verbose`,
+  `-dropped`, `-secrets`, `-search` and for the JSON dump of a result in which some cell holds a float32 / float64
+  (`dumpFloatFree r = false`); every theorem below whose hypothesis is `cliRun L a = .ok (.out o)` says nothing about
+  those runs.  `-v` and `-debug` are outside `cliRun` (see its doc comment).
 -/
 import PgVerif.Proofs.CliRender
+import PgVerif.Proofs.CliDump
 import PgVerif.Proofs.ClusterStr
+import PgVerif.Props.C12
 namespace PgVerif.Props.C12Cli
-open PgVerif PgVerif.Export PgVerif.Model PgVerif.Model.CliRender PgVerif.Proofs.CliRender
+open PgVerif PgVerif.Export PgVerif.Model PgVerif.Model.CliRender PgVerif.Proofs.CliRender PgVerif.Proofs.CliDump
 
 /-! ## JSON modes -/
 
@@ -503,7 +513,8 @@ example : hexDump [0x50, 0x47, 0, 0xFF] = Txt.asc "00000000  50 47 00 ff        
 
 /-- every library call main.go makes on the path of the action returns without error, and there is something to print:
 a data directory was detected (`-detect`), a database was found (`-list-db`), the JSON encoder accepts the checkpoint
-time (`-control`), no page has an invalid checksum (`-checksum`) -/
+time (`-control`), no page has an invalid checksum (`-checksum`), DumpDataDir returned a result (the dump modes).
+(`True` for the actions `cliRun` does not render: nothing is claimed about them.) -/
 def CliSuccess (L : Lib) : Action → Prop
   | .version => True
   | .detect => L.detectAll ≠ []
@@ -526,6 +537,7 @@ def CliSuccess (L : Lib) : Action → Prop
   | .file path (.range r seg) =>
     ∃ br, L.parseBlockRange r = .ok (some br) ∧ (∀ s, seg = some s → (L.segmentInfo path s).isSome = true) ∧
       ∃ bs, L.dumpBlockRange path br = .ok (some bs)
+  | .dump dir opts _ => ∃ r, L.dumpDataDir dir opts = .ok (some r)
   | _ => True
 
 theorem jsonOr_exit {α} (pre : String) (r : Option α) (f : α → Bytes) (o : Out) (h : jsonOr pre r f = .out o) :
@@ -544,9 +556,12 @@ theorem bind_jsonOr_exit {α} (pre : String) (m : M (Option α)) (f : α → Byt
     have := jsonOr_exit pre r f o h
     simpa using this
 
-/-- C12 (command-line program), exit code: whenever the program terminates without a panic in one of the modelled
-modes, the exit code is 0 or 1, and it is 0 exactly when `CliSuccess` holds — every library call on the path returned
-without error and there was something to print.  (`-version` always succeeds; a missing data directory and a bad
+/-- C12 (command-line program), exit code: whenever the program terminates without a panic in one of the rendered
+modes — the dump modes (JSON of a dump without float cells, `-sql`, `-csv`) included; NOT `-f … -index`,
+`-f … -toast-verbose`, `-dropped`, `-secrets`, `-search`, nor the JSON dump of a result holding a float, for which
+`cliRun` returns `.unrendered` and the hypothesis is false — the exit code is 0 or 1, and it is 0 exactly when
+`CliSuccess` holds — every library call on the path returned without error and there was something to print.
+(The dump modes: 0 exactly when DumpDataDir returned a result — see `C12_cli_dump_output` for what is printed.)  (`-version` always succeeds; a missing data directory and a bad
 `-relmap` argument always fail; `-checksum` fails when a page checksum is wrong even though the report is printed;
 `-control` fails when the JSON encoder refuses the checkpoint time — fix cluster/07; before it this case exited 0 with
 empty stdout.) -/
@@ -622,7 +637,20 @@ theorem C12_cli_exit (L : Lib) (a : Action) (o : Out) (h : cliRun L a = .ok (.ou
   | droppedAll _ => simp [cliRun] at h
   | secrets _ _ => simp [cliRun] at h
   | search _ _ => simp [cliRun] at h
-  | dump _ _ _ => simp [cliRun] at h
+  | dump dir opts fmt =>
+    cases hm : L.dumpDataDir dir opts with
+    | error e => rw [cliRun_dump_fault L dir opts fmt e hm] at h; simp at h
+    | ok r =>
+      cases r with
+      | none =>
+        rw [cliRun_dump_err L dir opts fmt hm] at h
+        simp only [Except.ok.injEq, Run.out.injEq] at h
+        subst h; simp [errOut, CliSuccess, hm]
+      | some r =>
+        rw [cliRun_dump_ok L dir opts fmt r hm] at h
+        simp only [Except.ok.injEq] at h
+        have := renderDump_out L fmt r o h
+        simp [this.1, CliSuccess, hm]
   | file path mode =>
     cases mode with
     | index => simp [cliRun] at h
@@ -753,7 +781,9 @@ theorem bind_jsonOr_streams {α} (pre : String) (m : M (Option α)) (f : α → 
     | none => simp only [jsonOr, Run.out.injEq] at h; subst h; simp [errOut, SaysError]
     | some x => simp only [jsonOr, Run.out.injEq] at h; subst h; simp [okOut]
 
-/-- C12 (command-line program), stdout vs stderr for the directory modes: a successful run writes nothing to stderr; a
+/-- C12 (command-line program), stdout vs stderr for the directory modes (every mode without `-f`; the dump modes
+included; as in `C12_cli_exit` nothing is claimed for the runs `cliRun` leaves `.unrendered`: `-dropped`, `-secrets`,
+`-search`, the JSON dump of a result holding a float): a successful run writes nothing to stderr; a
 failed run writes an error message to stderr and nothing to stdout — except the three reports that go to STDOUT with
 exit code 1: "No PostgreSQL data directories found" (`-detect`), "No databases found" (`-list-db`) and the checksum
 report with invalid blocks (`-checksum`). -/
@@ -834,7 +864,21 @@ theorem C12_cli_streams (L : Lib) (a : Action) (o : Out) (h : cliRun L a = .ok (
   | droppedAll _ => simp [cliRun] at h
   | secrets _ _ => simp [cliRun] at h
   | search _ _ => simp [cliRun] at h
-  | dump _ _ _ => simp [cliRun] at h
+  | dump dir opts fmt =>
+    apply lift
+    cases hm : L.dumpDataDir dir opts with
+    | error e => rw [cliRun_dump_fault L dir opts fmt e hm] at h; simp at h
+    | ok r =>
+      cases r with
+      | none =>
+        rw [cliRun_dump_err L dir opts fmt hm] at h
+        simp only [Except.ok.injEq, Run.out.injEq] at h
+        subst h; simp [errOut, SaysError]
+      | some r =>
+        rw [cliRun_dump_ok L dir opts fmt r hm] at h
+        simp only [Except.ok.injEq] at h
+        have := renderDump_out L fmt r o h
+        simp [this.1, this.2.1, this.2.2]
   | file path mode => exact absurd rfl (hf path mode)
 
 /-- a library in which every call fails (and nothing is detected) -/
@@ -845,10 +889,152 @@ def failingLib : Lib :=
     extractPasswords := fun _ => pure none, scanWAL := fun _ => pure none, readFile := fun _ => none,
     parsePGDatabase := fun _ => pure [], parsePGClass := fun _ => pure [], parsePGAttribute := fun _ => pure [],
     countTuples := fun _ => pure 0, parseBlockRange := fun _ => pure none, dumpBinaryRange := fun _ _ => pure none,
-    segmentInfo := fun _ _ => none, dumpBlockRange := fun _ _ => pure none }
+    segmentInfo := fun _ _ => none, dumpBlockRange := fun _ _ => pure none,
+    dumpDataDir := fun _ _ => pure none, now := Txt.asc "2026-01-01T00:00:00Z",
+    floatFmt := { v64 := fun _ => [], v32 := fun _ => [], j64 := fun _ => none, j32 := fun _ => none } }
 
 /-- the hypothesis of `C12_cli_exit` is satisfiable, on both sides of the verdict -/
 example : ∃ o, cliRun failingLib .version = .ok (.out o) ∧ o.exit = 0 := ⟨_, rfl, rfl⟩
 example : ∃ o, cliRun failingLib (.control (Txt.asc "/data")) = .ok (.out o) ∧ o.exit = 1 ∧ o.stdout = [] := ⟨_, rfl, rfl, rfl⟩
+
+/-! ## the dump modes -/
+
+/-- a library whose DumpDataDir returns one database with one table of two rows -/
+def exampleDump : Spec.DumpResult :=
+  [{ oid := 5, name := Txt.asc "postgres",
+     tables := [{ oid := 16384, name := Txt.asc "t", filenode := 16390, kind := [114],
+                  columns := [⟨Txt.asc "id", Txt.asc "int4", 23⟩, ⟨Txt.asc "name", Txt.asc "text", 25⟩],
+                  rows := [[(Txt.asc "id", .int 7), (Txt.asc "name", .str (Txt.asc "a<b"))],
+                           [(Txt.asc "name", .nil), (Txt.asc "id", .int (-8))]],
+                  rowCount := 2 }] }]
+
+def dumpLib : Lib := { failingLib with dumpDataDir := fun _ _ => pure (some exampleDump) }
+
+/-- **C12 (command-line program), the dump modes: filters, `-list` and the format flags select exactly what the
+corresponding library options select, and stdout is exactly the rendering of what the library returned.**
+For every flag record without a mode flag (`noModeFlag`: no -version, -detect, -f, -list-db, -control, -checksum,
+-dropped, -sequences, -relmap, -passwords, -secrets, -search, -wal) and with a data directory `dir` — the value of `-d`,
+or the detected directory when `-d` is not given —, main.go calls
+`DumpDataDir(dir, {DatabaseFilter: -db, TableFilter: -t, ListOnly: -list, SkipSystemTables: true, PostgresVersion: 0})`
+once, and
+  * when the call returns a result `r`: the exit code is 0, stderr is empty and stdout is, byte for byte,
+    `r.ToSQL` (area export's `toSQL`, with the clock reading `L.now` in its `-- Generated at:` line) if `-sql` is set,
+    else `r.ToCSV` (`toCSV`) if `-csv` is set, else the two-space indented JSON text of `r` (`encodeJSON` of `dumpJV r`:
+    databases, tables, columns and rows in the order of `r`, the keys of a row sorted) — unless, in the JSON case, some
+    cell of `r` holds a float: then `cliRun` says `.unrendered .dump` and nothing is claimed;
+  * when the call returns an error: exit code 1, nothing on stdout, "Error: " followed by the error text on stderr;
+  * when the call panics, so does the program.
+(Without `-v`, `-debug`; writes to stdout are assumed not to fail — see `renderDump`.) -/
+theorem C12_cli_dump_output (L : Lib) (detected : Bytes) (f : Flags) (hm : C12.noModeFlag f)
+    (dir : Bytes) (hdir : dir = if f.dataDir = [] then detected else f.dataDir) (hne : dir ≠ []) :
+    let opts : Spec.Options :=
+      { dbFilter := f.dbFilter, tableFilter := f.tableFilter, listOnly := f.listOnly, skipSystem := true, pgVersion := 0 }
+    (∀ r, L.dumpDataDir dir opts = .ok (some r) →
+      cliRun L (cliAction detected f) = .ok (
+        if f.sqlOutput then .out { stdout := Model.Export.toSQL L.floatFmt L.now (exportDump r), stderr := [], stderrMore := false, exit := 0 }
+        else if f.csvOutput then .out { stdout := Model.Export.toCSV L.floatFmt (exportDump r), stderr := [], stderrMore := false, exit := 0 }
+        else match dumpJV r with
+          | some v => .out { stdout := encodeJSON v, stderr := [], stderrMore := false, exit := 0 }
+          | none => .unrendered .dump)) ∧
+    (L.dumpDataDir dir opts = .ok none →
+      cliRun L (cliAction detected f) = .ok (.out { stdout := [], stderr := Txt.asc "Error: ", stderrMore := true, exit := 1 })) ∧
+    (∀ e, L.dumpDataDir dir opts = .error e → cliRun L (cliAction detected f) = .error e) := by
+  intro opts
+  have ha : cliAction detected f = .dump dir opts (outFormat f) := by
+    by_cases hd : f.dataDir = []
+    · rw [if_pos hd] at hdir
+      rw [C12.C12_cli_detect detected f hm hd, if_neg (by rw [← hdir]; exact hne), ← hdir]; rfl
+    · rw [if_neg hd] at hdir
+      rw [C12.C12_cli_dump detected f hm hd, ← hdir]; rfl
+  rw [ha]
+  refine ⟨?_, ?_, ?_⟩
+  · intro r hr
+    rw [cliRun_dump_ok L dir opts _ r hr]
+    unfold renderDump outFormat
+    cases f.sqlOutput <;> cases f.csvOutput <;> simp only [Bool.false_eq_true, if_true, if_false, okOut]
+    cases dumpJV r <;> rfl
+  · intro hr
+    rw [cliRun_dump_err L dir opts _ hr]; rfl
+  · intro e hr
+    exact cliRun_dump_fault L dir opts _ e hr
+
+/-- the hypotheses of `C12_cli_dump_output` are satisfiable (`-d /data -db postgres -t T -list`), and on the example
+library the run prints the JSON text of the example dump -/
+example : C12.noModeFlag { dataDir := Txt.asc "/data", dbFilter := Txt.asc "postgres", tableFilter := Txt.asc "T", listOnly := true } := by
+  simp [C12.noModeFlag]
+
+/-- on the example library `pgread -d /data` exits 0 with empty stderr and prints the JSON text of the example dump -/
+example : ∃ o v, cliRun dumpLib (cliAction [] { dataDir := Txt.asc "/data" }) = .ok (.out o) ∧ dumpJV exampleDump = some v ∧
+    o = { stdout := encodeJSON v, stderr := [], stderrMore := false, exit := 0 } := ⟨_, _, rfl, rfl, rfl⟩
+
+/-- the `rows` member of that text: the keys of a row sorted (the second row lists `name` first), `<` escaped as
+encoding/json does, NULL as `null`, negative integers in decimal -/
+example : (rowsJV [[(Txt.asc "id", .int 7), (Txt.asc "name", .str (Txt.asc "a<b"))], [(Txt.asc "name", .nil), (Txt.asc "id", .int (-8))]]).map
+      (fun l => encodeJSON (.arr l)) =
+    some (Txt.asc "[\n  {\n    \"id\": 7,\n    \"name\": \"a\\u003cb\"\n  },\n  {\n    \"id\": -8,\n    \"name\": null\n  }\n]\n") := by
+  decide
+
+/-- `-csv` on the same dump -/
+example : ∃ o, cliRun dumpLib (cliAction [] { dataDir := Txt.asc "/data", csvOutput := true }) = .ok (.out o) ∧
+    o = { stdout := Txt.asc "# Database: postgres, Table: t\nid,name\n7,a<b\n-8,\n\n", stderr := [], stderrMore := false, exit := 0 } :=
+  ⟨_, rfl, by decide⟩
+
+/-- a failing library call: exit 1, empty stdout, "Error: …" on stderr -/
+example : ∃ o, cliRun failingLib (cliAction (Txt.asc "/detected") {}) = .ok (.out o) ∧
+    o = { stdout := [], stderr := Txt.asc "Error: ", stderrMore := true, exit := 1 } := ⟨_, rfl, by decide⟩
+
+/-- The JSON dump is rendered exactly for the dumps in which no cell holds a float32 / float64 (`dumpFloatFree`): for
+those — in particular for every dump of the column types bool, "char", int2, int4, int8, oid, name, text, varchar,
+bpchar and of dropped columns — `C12_cli_dump_output`, `C12_cli_exit` and `C12_cli_streams` speak about the JSON mode. -/
+theorem C12_cli_dump_json_rendered (r : Spec.DumpResult) : (∃ v, dumpJV r = some v) ↔ dumpFloatFree r = true := by
+  rw [← dumpJV_isSome]
+  cases dumpJV r <;> simp
+
+example : dumpFloatFree exampleDump = true := by decide
+
+/-- one database, one table without declared columns, one row holding the cell `c` -/
+def oneCell (v : GoVal) : Spec.DumpResult :=
+  [{ oid := 5, name := [],
+     tables := [{ oid := 1, name := [], filenode := 1, kind := [114], columns := [], rows := [[(Txt.asc "c", v)]], rowCount := 1 }] }]
+
+/-- a dump with a float cell is NOT rendered in the JSON mode (and is in the `-sql` / `-csv` modes) -/
+example : dumpJV (oneCell (.f64 0)) = none := by decide
+
+/-- **The JSON text of a dump is valid JSON and denotes the dump.**  What `pgread -d DIR` prints for a dump `r` without
+float cells whose strings (database, table, column and type names, relkinds, row keys, text cells) are valid UTF-8 is a
+complete RFC 8259 text (neutral parser `Spec.Json.parse`) denoting the JSON value `dumpJV r`: the object
+`{"databases": …}` with every database, table, column and row of `r` in order. -/
+theorem C12_cli_dump_json_valid (r : Spec.DumpResult) (v : JV) (h : dumpJV r = some v) (hc : clean v = true) :
+    ∃ j, Spec.Json.parse (encodeJSON v) = some j ∧ (dumpJV r).map jOf = some j :=
+  ⟨jOf v, parse_encodeJSON v hc, by rw [h]; rfl⟩
+
+/-- **The JSON text determines the dump.**  Two dumps (no float cells, strings valid UTF-8) for which `pgread -d DIR`
+prints the same text have the same databases in the same order, each with the same oid, name and tables in the same
+order, each table with the same oid, name, filenode, relkind, columns (name, type name, type oid, in order), row count
+and rows in the same order, each row with the same cells — everything but the order in which a row's association list
+names its keys (`normDump`: a Go map has none).  So no database, table, column, row or cell value the library reports
+is dropped, merged or reordered by the JSON rendering. -/
+theorem C12_cli_dump_json_injective (r₁ r₂ : Spec.DumpResult) (v₁ v₂ : JV) (h₁ : dumpJV r₁ = some v₁) (h₂ : dumpJV r₂ = some v₂)
+    (c₁ : clean v₁ = true) (c₂ : clean v₂ = true) (h : encodeJSON v₁ = encodeJSON v₂) : normDump r₁ = normDump r₂ := by
+  have e := encodeJSON_injective v₁ v₂ c₁ c₂ h
+  subst e
+  exact dumpJV_rel r₁ r₂ v₁ h₁ h₂
+
+/-- the hypotheses are satisfiable: the example dump has a JSON value all of whose strings are valid UTF-8 -/
+example : ∃ v, dumpJV exampleDump = some v ∧ clean v = true := ⟨_, rfl, by decide⟩
+
+set_option maxRecDepth 20000 in
+/-- outside the UTF-8 hypothesis the text does NOT determine the dump: a `name` / `"char"` cell (returned by DecodeType
+as stored) holding the byte FF and one holding FE are both printed as `"\ufffd"` -/
+theorem C12_cli_dump_json_invalid_utf8_lost :
+    (dumpJV (oneCell (.str [0xFF]))).map encodeJSON = (dumpJV (oneCell (.str [0xFE]))).map encodeJSON := by decide
+
+#print axioms C12_cli_exit
+#print axioms C12_cli_streams
+#print axioms C12_cli_dump_output
+#print axioms C12_cli_dump_json_rendered
+#print axioms C12_cli_dump_json_valid
+#print axioms C12_cli_dump_json_injective
+#print axioms C12_cli_dump_json_invalid_utf8_lost
 
 end PgVerif.Props.C12Cli
